@@ -32,7 +32,7 @@ class CallbackError(Exception):
 
 
 def gen_program(rng):
-    task = [rng.choice(["ret", "ret", "raise", "raise", "raise-falsy"]), rng.choice([0, 0, 1.0, 2.0])]
+    task = [rng.choice(["ret", "ret", "raise", "raise", "raise-falsy", "ret-exc"]), rng.choice([0, 0, 1.0, 2.0])]
     nthreads = rng.randint(2, 4)
     threads = []
     execer = rng.randrange(nthreads)
@@ -43,8 +43,8 @@ def gen_program(rng):
             k = rng.random()
             if k < 0.45:
                 op = ["cb", rng.choice(["ret", "ret", "raise", "arity", "typeerr-noextra", "ret-noextra"])]
-                if rng.random() < 0.25:
-                    op.append(rng.choice(["partial", "object"]))
+                if rng.random() < 0.3:
+                    op.append(rng.choice(["partial", "object", "boundmethod"]))
                 out.append(op)
             elif k < 0.6:
                 out.append(["done"])
@@ -71,7 +71,8 @@ class FutRun(object):
         self.p = program
         self.s = sched
         self.tp = env.pool_seams()
-        self.obj = ["task-result"]
+        # "ret-exc": the task *returns* an exception object (a collect-errors helper); that is a result, not a failure
+        self.obj = ValueError("returned, not raised") if program["task"][0] == "ret-exc" else ["task-result"]
         self.exc = EmptyGroupError("task-exception") if program["task"][0] == "raise-falsy" else TaskError("task-exception")
 
     def task(self, *args, **kwargs):
@@ -81,7 +82,7 @@ class FutRun(object):
             d = self.p["task"][1]
             if d:
                 s.sleep(d)
-            if self.p["task"][0] != "ret":
+            if self.p["task"][0] not in ("ret", "ret-exc"):
                 raise self.exc
             return self.obj
         finally:
@@ -99,6 +100,13 @@ class FutRun(object):
                     return cb(*args)
 
             return Callable()
+        if shape == "boundmethod":
+            # a method of an object nobody else refers to
+            class Listener(object):
+                def on_done(self, *args):
+                    return cb(*args)
+
+            return Listener().on_done
         return cb
 
     def _make_cb(self, reg, kind):
@@ -216,6 +224,8 @@ def analyse(program, log, verdict, thread_errors=()):
             exec_op = o
     T1 = exec_op["ret"] if exec_op else INF
     tk = program["task"][0]
+    if tk == "ret-exc":
+        tk = "ret"
     if verdict is not None and verdict.kind in ("deadlock", "stall"):
         pend = sorted(set(o["name"] for o in ops.values() if o["ret"] == INF))
         v.append(Violation("C16", "termination", "%s:%s" % (verdict.kind, "+".join(pend)),
